@@ -283,6 +283,40 @@ def queue_model(ctx, repo, rule):
     ctx.ob(rule, f"{QUEUE_CLS}.pop::sync", not pop.is_async and not any(n.suspends for n in cfg_of(pop).nodes), f"{QUEUE_CLS}.pop suspends", pop.loc)
 
 
+def nothing_queued_is_lost(ctx, repo, rule, n=100):
+    """what arrives is what the consumers get, however much is waiting: an AsyncPeekableQueue built by its constructor
+    (asyncio.Queue's documented behaviour modelled, the subclass's own _init / _put / _get hooks interpreted) takes
+    <n> distinct datagrams through put_nowait and hands out the same <n>, oldest first, through head / pop - a bounded
+    container behind an unbounded queue (deque(maxlen=...)) drops the oldest waiting datagrams without a word."""
+    from ..absint import ClassRef, Interp, PyRaise, Undecided
+    cls = repo.cls(QUEUE_CLS)
+    interp = Interp(repo, max_depth=8)
+    try:
+        q = interp.apply(ClassRef(cls), [], {})
+        items = [(b"<HELLO>SPA%03d|Spa %d</HELLO>" % (i, i), ("10.0.%d.%d" % (i // 200, i % 200 + 1), 10022)) for i in range(n)]
+        for x in items:
+            interp.steps = 0
+            interp.apply(interp.getattr(q, "put_nowait"), [x], {})
+        got = []
+        for _ in range(n + 5):
+            interp.steps = 0
+            h = interp.getattr(q, "head")
+            if h is None:
+                break
+            got.append(h)
+            interp.call(repo.method(QUEUE_CLS, "pop"), q, [])
+    except PyRaise as e:
+        got = f"raises {e.what}"
+    except Undecided as e:
+        raise AnalysisError(f"{QUEUE_CLS}: {n} datagrams through put_nowait / head / pop: cannot interpret: {e}")
+    ok = isinstance(got, list) and len(got) == n and all(a is b or a == b for a, b in zip(got, items))
+    what = (f"{len(got)} come out, the first being {got[0][0][:14] if got else None!r}" if isinstance(got, list) else got)
+    ctx.ob(rule, f"{QUEUE_CLS}::{n}-waiting::all-handed-out-oldest-first", ok,
+           f"{QUEUE_CLS}: {n} datagrams queued before the consumer wakes: {what} - expected all {n}, oldest first: replies still waiting when more arrive are dropped "
+           f"without an error (a discovery with more spas than the hidden bound lists only the last ones; a burst of partial updates loses its oldest)", repo.method(QUEUE_CLS, "pop").loc,
+           sample={"rule": rule, "queued": n, "handed_out": len(got) if isinstance(got, list) else str(got)})
+
+
 def acceptance_by_complete_verb(ctx, repo, rule):
     """can_handle of every verb consumer, interpreted on adversarial datagrams derived from the verbs the library emits:
     every proper prefix of every verb (the empty datagram included), every verb with its last byte replaced, a verb
@@ -413,6 +447,7 @@ def one_taker_per_datagram(ctx, repo, rule):
 def check_queue_class(ctx, repo):
     c = repo.cls(QUEUE_CLS)
     queue_model(ctx, repo, "R3")
+    nothing_queued_is_lost(ctx, repo, "R3")
     ctx.rule("R10", "one taker per datagram: the long-lived consumers `_connect` starts and the handler classes the connection builds requests from accept pairwise disjoint verbs (can_handle interpreted on every verb the protocol modules name) - the consumers poll one queue and nothing else orders them")
     one_taker_per_datagram(ctx, repo, "R10")
     ctx.rule("R7", "head-of-line: one pass of the discard consumer, interpreted on a real peekable queue, removes a datagram nobody claimed after one mark-and-wait interval whether the request lock is free or held, and removes nothing when the marked datagram was taken meanwhile")
@@ -638,3 +673,30 @@ def check(ctx):
                 ctx.ob("R6", f"{w.qual}::bool-result", False, f"{w.qual} returns non-constant {ast.unparse(n.ast)}", loc(w, n.ast))
     ctx.assume("asyncio tasks interleave only at await (cooperative scheduling)")
     ctx.assume("asyncio.Queue delivers FIFO; put_nowait appends at the tail")
+
+
+def who_may_remove(ctx, repo, rule):
+    """only the consumers (wait_for_response, consume, the discard consumer) and their private helpers take datagrams off
+    a protocol queue - anything else that pops (a request engine that flushes the shared queue when an attempt times out)
+    throws away what OTHER consumers of the connection were about to handle.  Stand-alone form of R2's who-may-pop part."""
+    sites = queue_sites(repo)
+    pops = [(fi, c, nm, r) for fi, c, nm, r in sites if nm in REMOVERS]
+    allowed = {repo.method(BASE, "wait_for_response").qual, repo.method(BASE, "consume").qual, repo.method(UNHANDLED, "consume").qual}
+    from ..callgraph import callgraph as _cgf
+    _cg = _cgf(repo)
+    _callers = {}
+    for f_ in _cg.funcs:
+        for c_ in _cg.callees(f_):
+            _callers.setdefault(id(c_.node), set()).add(f_.qual)
+    changed = True
+    while changed:
+        changed = False
+        for fi_, c_, nm_, r_ in pops:
+            cs_ = _callers.get(id(fi_.node), set())
+            if fi_.qual not in allowed and fi_.name.startswith("_") and cs_ and cs_ <= allowed:
+                allowed.add(fi_.qual)
+                changed = True
+    for fi, c, nm, r in pops:
+        ctx.ob(rule, f"{fi.qual}::{nm}", fi.qual in allowed,
+               f"{fi.qual} removes from a protocol queue ({r}.{nm}()); only {sorted(allowed)} may", loc(fi, c))
+    ctx.floor(rule, "sites that remove from a protocol queue", len(pops), 2)
